@@ -195,6 +195,27 @@ func proxyPart(r *seq.Run, tier string) {
 				}
 			}))
 			req := &http.Request{Method: "GET", URL: &url.URL{Path: "/"}, Header: http.Header{}}
+			// an earlier request served through the same middleware (status 404, 7 body bytes): whatever it leaves
+			// behind - a recycled proxy, a package-level scratch value - must not colour this request's report
+			{
+				pu := &under{hdr: http.Header{}}
+				var pw http.ResponseWriter = pu
+				switch capset {
+				case "flusher":
+					pw = flushUnder{pu}
+				case "full":
+					pw = fullUnder{pu}
+				}
+				hlog.AccessHandler(func(*http.Request, int, int, time.Duration) {})(http.HandlerFunc(func(w http.ResponseWriter, req *http.Request) {
+					w.WriteHeader(404)
+					w.Write([]byte("zz"))
+					if rf, ok := w.(io.ReaderFrom); ok {
+						rf.ReadFrom(strings.NewReader("12345"))
+					} else {
+						w.Write([]byte("12345"))
+					}
+				})).ServeHTTP(pw, req)
+			}
 			h.ServeHTTP(w, req)
 			r.Transitions += int64(len(calls))
 			r.Eval(fmt.Sprint(capset, calls, script, gotStatus, gotSize), len(script) > 0)
